@@ -26,6 +26,9 @@ type Sel struct {
 	Block  []uint64 `json:"block,omitempty"`
 	Slice  bool     `json:"slice"`         // use ReadSlice(start,count) (stride/block must be nil)
 	OOB    string   `json:"oob,omitempty"` // how the selection was pushed out of bounds ("" = in bounds)
+	// Reuse >= 2 (selections passed to ReadHyperslab without stride and block): the caller keeps the selection value, sets
+	// the stride of the first dimension the library filled in to this value and reads again
+	Reuse uint64 `json:"reuse,omitempty"`
 }
 
 type Case struct {
@@ -41,6 +44,10 @@ type Case struct {
 	// ... or a corpus dataset
 	Corpus string `json:"corpus,omitempty"` // file (relative to /repo/testdata) + "::" + dataset path
 	Sels   []Sel  `json:"sels"`
+	// Twin: the file holds a second dataset with the same link name in another group (/g/d next to /d), same shape, other
+	// values (and, when TwinChunk is set, another chunk shape); every selection is read from both through the one File
+	Twin      bool     `json:"twin,omitempty"`
+	TwinChunk []uint64 `json:"twin_chunk,omitempty"`
 }
 
 // ---- corpus datasets on which Read() succeeds (enumerated once per process) -------------------------------------
@@ -156,6 +163,9 @@ func genSel(t *rapid.T, dims []uint64, chunk []uint64) Sel {
 		}
 	}
 	s.Slice = kind == "slice" || ((kind == "single" || kind == "full" || kind == "last" || kind == "row") && rapid.Bool().Draw(t, "viaSlice"))
+	if !s.Slice && !strided && rapid.Bool().Draw(t, "reuse") {
+		s.Reuse = uint64(rapid.IntRange(2, 4).Draw(t, "reuseStride"))
+	}
 	if kind == "oob" {
 		d := rapid.IntRange(0, rank-1).Draw(t, "oobDim")
 		s.OOB = rapid.SampledFrom([]string{"past_end", "start_at_end", "zero_count", "zero_stride", "zero_block", "overflow", "rank"}).Draw(t, "oobKind")
@@ -223,6 +233,14 @@ func gen(t *rapid.T) Case {
 			}
 		}
 	}
+	if c.Corpus == "" && c.WDims == nil && rapid.IntRange(0, 3).Draw(t, "twin") == 0 {
+		c.Twin = true
+		if c.Chunk != nil && rapid.Bool().Draw(t, "twinOtherChunks") {
+			for _, e := range c.Dims {
+				c.TwinChunk = append(c.TwinChunk, uint64(rapid.IntRange(1, int(e)).Draw(t, "twinChunk")))
+			}
+		}
+	}
 	n := rapid.IntRange(1, 6).Draw(t, "nsels")
 	for i := 0; i < n; i++ {
 		c.Sels = append(c.Sels, genSel(t, c.Dims, c.Chunk))
@@ -244,7 +262,13 @@ func classify(c Case) (bool, []string) {
 		labels = append(labels, "contiguous")
 	}
 	nt := false
+	if c.Twin {
+		labels = append(labels, "same_link_name_in_two_groups")
+	}
 	for _, s := range c.Sels {
+		if s.Reuse > 0 && s.OOB == "" {
+			labels = append(labels, "selection_value_reused")
+		}
 		if s.OOB != "" {
 			labels = append(labels, "oob="+s.OOB)
 			continue
@@ -363,6 +387,22 @@ func run(c Case) vt.Verdict {
 				return vt.Bad("setup %s: %s%s", op.K, st.Err, st.Broken)
 			}
 		}
+		if c.Twin {
+			tspec := &hist.DSpec{Type: c.Type, Dims: c.Dims, Chunk: c.Chunk}
+			if c.TwinChunk != nil {
+				tspec.Chunk = c.TwinChunk
+			}
+			if !tspec.Valid() {
+				ex.Close()
+				return vt.Skipped("bad twin spec")
+			}
+			for _, op := range []hist.Op{{K: "group", Path: "/g"}, {K: "dataset", Path: "/g/d", D: tspec}, {K: "write", Path: "/g/d", Seed: 1003 + c.DSeed, Mode: hist.ModeMixed}} {
+				if st := ex.Apply(op); st.Err != "" || st.Broken != "" {
+					ex.Close()
+					return vt.Bad("setup twin %s: %s%s", op.K, st.Err, st.Broken)
+				}
+			}
+		}
 		if c.WDims != nil {
 			if st := ex.Apply(hist.Op{K: "resize", Path: dpath, Dims: c.Dims}); st.Err != "" || st.Broken != "" {
 				ex.Close()
@@ -378,6 +418,20 @@ func run(c Case) vt.Verdict {
 		return vt.Bad("Open(%s): %v", file, err)
 	}
 	defer f.Close()
+	paths := []string{dpath}
+	if c.Twin && c.Corpus == "" {
+		paths = []string{"/g/d", dpath, "/g/d"}
+	}
+	for _, p := range paths {
+		if v := readAll(c, f, p); v.Kind != vt.Pass().Kind {
+			return v
+		}
+	}
+	return vt.Pass()
+}
+
+// readAll reads every selection of the case from the dataset at dpath and compares with that dataset's full read.
+func readAll(c Case, f *hdf5.File, dpath string) vt.Verdict {
 	var ds *hdf5.Dataset
 	f.Walk(func(p string, o hdf5.Object) {
 		if d, ok := o.(*hdf5.Dataset); ok && p == dpath && ds == nil {
@@ -385,6 +439,9 @@ func run(c Case) vt.Verdict {
 		}
 	})
 	if ds == nil {
+		if dpath == "/g/d" {
+			return vt.Bad("dataset /g/d written by the library is not listed")
+		}
 		return vt.Skipped("dataset %s not found", dpath)
 	}
 	full, err := ds.Read()
@@ -403,8 +460,9 @@ func run(c Case) vt.Verdict {
 		return vt.Skipped("shape mismatch with the case")
 	}
 	for i, s := range c.Sels {
-		var got interface{}
-		var rerr error
+		var got, got2 interface{}
+		var rerr, rerr2 error
+		var s2 *Sel
 		func() {
 			defer func() {
 				if p := recover(); p != nil {
@@ -419,6 +477,18 @@ func run(c Case) vt.Verdict {
 					sel.Stride, sel.Block = append([]uint64{}, s.Stride...), append([]uint64{}, s.Block...)
 				}
 				got, rerr = ds.ReadHyperslab(sel)
+				if rerr == nil && s.Reuse >= 2 && s.OOB == "" && s.Stride == nil && len(sel.Stride) == len(dims) && len(sel.Block) == len(dims) && len(dims) > 0 {
+					// the defaults were filled into the caller's value: change one of them and read again
+					blk := append([]uint64{}, sel.Block...)
+					sel.Stride[0] = s.Reuse
+					if blk[0] >= 1 && blk[0] <= s.Reuse && sel.Start[0]+blk[0] <= dims[0] {
+						if maxCount := (dims[0]-sel.Start[0]-blk[0])/s.Reuse + 1; sel.Count[0] > maxCount {
+							sel.Count[0] = maxCount
+						}
+						s2 = &Sel{Start: append([]uint64{}, sel.Start...), Count: append([]uint64{}, sel.Count...), Stride: append([]uint64{}, sel.Stride...), Block: blk}
+						got2, rerr2 = ds.ReadHyperslab(sel)
+					}
+				}
 			}
 		}()
 		if rerr != nil && strings.HasPrefix(rerr.Error(), "PANIC") {
@@ -444,6 +514,21 @@ func run(c Case) vt.Verdict {
 		for k := range want {
 			if math.Float64bits(vals[k]) != math.Float64bits(want[k]) {
 				return vt.Bad("selection %d %+v on dims %v chunk %v: element %d = %v, the full read has %v there", i, s, dims, c.Chunk, k, vals[k], want[k])
+			}
+		}
+		if s2 != nil {
+			if rerr2 != nil {
+				return vt.Bad("selection %d re-used with stride[0]=%d (%+v) on dims %v rejected: %v", i, s.Reuse, *s2, dims, rerr2)
+			}
+			vals2, ok := got2.([]float64)
+			want2 := expected(full, dims, *s2)
+			if !ok || len(vals2) != len(want2) {
+				return vt.Bad("selection %d re-used with stride[0]=%d (%+v, block as filled in by the first call) on dims %v: %d values returned, %d selected", i, s.Reuse, *s2, dims, len(vals2), len(want2))
+			}
+			for k := range want2 {
+				if math.Float64bits(vals2[k]) != math.Float64bits(want2[k]) {
+					return vt.Bad("selection %d re-used with stride[0]=%d (%+v) on dims %v: element %d = %v, the full read has %v there", i, s.Reuse, *s2, dims, k, vals2[k], want2[k])
+				}
 			}
 		}
 	}
